@@ -915,13 +915,13 @@ def plan_runs(chk):
     allint = list(interleavings([6, 6]))
     for (a, b, keys) in EXH_PROGRAMS:
         if chk.quick:
-            sel = FIXED_PLANS + rng.sample(allint, 60)
+            sel = FIXED_PLANS + rng.sample(allint, 40)
         else:
             sel = allint
         for pl in sel:
             plans.append(([a, b], pl, 'segment', keys))
     # random fine-grained schedules
-    nrand = 300 if chk.quick else 600
+    nrand = 250 if chk.quick else 600
     for c in range(nrand):
         if chk.quick:
             nproc = rng.choice([2, 2, 3, 3, 4])
